@@ -33,7 +33,7 @@ func runC18(c *Ctx) {
 	c.Rule("R18.1", "E2", "mutations are dominated by checkPreconditions(...)==false for the same tag; GET/HEAD publish the tested tag", 9)
 	c.Rule("R18.2", "E2/E5", "compare-and-write under one critical section of groups.mu, against a tag read inside it", 10)
 	c.Rule("R18.3", "E3", "atomic replace: temp in the target directory; Encode, Sync, Close ok before Rename; cleanup on error; no other writer", 5)
-	c.Rule("R18.4", "E3", "checkPreconditions / etagMatch status matrix", 5)
+	c.Rule("R18.4", "E3", "checkPreconditions / etagMatch status matrix", 6)
 	c18Handlers(c)
 	c18Store(c)
 	p := c.P
@@ -880,4 +880,44 @@ func c18Preconditions(c *Ctx) {
 		}
 	}
 	c.Check(nbad == 0, "R18.4", "etagMatch: true only on equality with the current tag", em.Pos(), "every `return true` is dominated by X == etag", "a return true is not guarded by a comparison with the current tag")
+	// the empty tag stands for "the object does not exist": what is compared
+	// equal with etag must itself be known non-empty (a scanned element, or
+	// the whole non-empty header), else a malformed header matches a
+	// non-existent object
+	nempty := 0
+	for _, ret := range eff.Returns() {
+		if len(ret.Results) != 1 {
+			continue
+		}
+		tv := einfo.Types[ret.Results[0]]
+		if tv.Value == nil || tv.Value.String() != "true" {
+			continue
+		}
+		st, _ := eff.At(ret)
+		ok := false
+		if st != nil {
+			et := TVar(eparams[0]).String()
+			for _, f := range st.Facts() {
+				if f.Op != "eq" || !f.Pos || f.B == nil {
+					continue
+				}
+				var other *Term
+				if f.A.String() == et {
+					other = f.B
+				} else if f.B.String() == et {
+					other = f.A
+				}
+				if other == nil {
+					continue
+				}
+				if st.HasFact(mkFact(false, "eq", TStr(""), other)) {
+					ok = true
+				}
+			}
+		}
+		if !ok {
+			nempty++
+		}
+	}
+	c.Check(nempty == 0, "R18.4", "etagMatch: only a non-empty element can match", em.Pos(), "every `return true` compares etag with something known to be non-empty", "an element that failed to scan (the empty string) is compared with the tag: a malformed If-Match matches the 'does not exist' marker and lets a deleted group be re-created")
 }
